@@ -949,6 +949,11 @@ func (r *Runner) Run(ctx context.Context, node syntax.Node) error {
 	default:
 		return fmt.Errorf("node can only be File, Stmt, or Command: %T", node)
 	}
+	// A cancelled context must not look like a success, such as when it cut short
+	// a blocked read in the condition of the last loop in the program.
+	if err := ctx.Err(); err != nil && r.exit.ok() {
+		r.exit.fatal(err)
+	}
 	// A bare Command bypasses stmt, which normally updates lastExit.
 	r.lastExit = r.exit
 	// Running an entire file implies an exit; a statement or command
